@@ -197,6 +197,8 @@ def oracle(case, obs):
             if [float(x) for x in case["verts"][v]] != [float(x) for x in va[v]]:
                 out.append(("input-mutated", "input mesh vertex %d moved from %s to %s during the embedding / flat_mesh" % (v, case["verts"][v], va[v])))
                 break
+    if obs.get("custom_after") is not None and obs.get("custom_after") != obs.get("custom_rows"):
+        out.append(("input-mutated", "the caller's custom_boundary array was modified by the embedding"))
     # ---- border placement, on my own border walk
     cyc = G.border_cycle(faces)[0]
     P = [uvV[v] for v in cyc]
